@@ -89,7 +89,7 @@ static void prop_eigen(Tape &t, Ctx &c) {
         require_truthful(c, "amg<Eigen block>+bicgstab", A, f, x, iters, resid, tol, maxiter, bc.model());
     } catch (const vf::Fail &) { throw; }
       catch (const std::runtime_error &e) {
-        if (!bc.model() && std::string(e.what()).find("BiCGStab") != std::string::npos) c.label("breakdown:eigen");
+        if (std::string(e.what()).find("in BiCGStab") != std::string::npos) c.label(bc.model() ? "breakdown(model):eigen" : "breakdown:eigen"); // see the triage note in c13_common.hpp
         else throw;
     }
 }
@@ -194,7 +194,7 @@ static void prop_eigen_vs_static(Tape &t, Ctx &c) {
         require_truthful(c, "amg<Eigen block>+bicgstab, non-symmetric blocks", A, f, x, iters, resid, 1e-8, 1000, model);
         c.label(iters <= 20 ? "evs:iters<=20" : iters <= 60 ? "evs:iters<=60" : "evs:iters>60");
     } catch (const vf::Fail &) { throw; }
-      catch (const std::runtime_error &e) { if (!model && std::string(e.what()).find("BiCGStab") != std::string::npos) c.label("breakdown:evs"); else throw; }
+      catch (const std::runtime_error &e) { if (std::string(e.what()).find("in BiCGStab") != std::string::npos) c.label(model ? "breakdown(model):evs" : "breakdown:evs"); else throw; }
 }
 
 static std::vector<Prop> props() {
